@@ -51,6 +51,13 @@ func zipContains(raw, sig []byte, msoCheck bool) bool {
 	if len(b) < 0x1E {
 		return false
 	}
+	// Entry names are looked for at offsets relative to local file headers,
+	// starting with the one at offset 0. An archive without entries begins
+	// with the end of central directory record: it has no entry names, and
+	// its comment must not be taken for one.
+	if !bytes.HasPrefix(b, pk) {
+		return false
+	}
 
 	if !b.advance(0x1E) {
 		return false
